@@ -310,7 +310,7 @@ PROPS = {
             "records are modelled at the level of model values (attribute map + array / map / mixed body, as Value::write_with drives the writer and as the reader + Value recogniser rebuild them); the f32 marker, delegated (scalar) record bodies and everything the derive macro generates are NOT modelled: oracles run only the real code (h_recon/c16d for a battery of derived types)",
         ],
         assumptions=[
-            "theorems cover the MessagePack form of model values (round trip with arbitrary following input, injectivity; for scalars also: truncation is Incomplete); the typed <-> model <-> Recon <-> MessagePack agreement of derived and built-in Form types is oracle-checked on the real code only (partial)",
+            "theorems cover the MessagePack form of model values (round trip with arbitrary following input, injectivity, every proper prefix of an encoding is Incomplete at any nesting depth, prefix-freeness); the typed <-> model <-> Recon <-> MessagePack agreement of derived and built-in Form types is oracle-checked on the real code only (partial)",
             "the derived battery is 20 fixed types (tag, rename, header, header_body, attr, body, skip, newtype, unit, tuple, generics, camel-case convention, tag field, enums, nesting, collections); other attribute combinations are not exercised",
             "whether a printed text reads back as the same model value is C09's business: the battery requires the two reading paths to agree always, and to return the original only when the text is faithful to the model",
         ],
